@@ -10,6 +10,7 @@ import (
 	"strconv"
 	"strings"
 	"sync"
+	"sync/atomic"
 	"time"
 
 	"github.com/klev-dev/klevdb"
@@ -117,12 +118,18 @@ type hookMode struct {
 	dyn map[int64]*hookClient
 }
 
-var curHook *hookMode
+var curHook atomic.Pointer[hookMode]
 
 func installHook(h *hookMode) {
-	curHook = h
-	vhook.Set(func(point string) {
-		hm := curHook
+	curHook.Store(h)
+	vhook.Set(hookAt)
+}
+
+// hookAt is the handler behind every pkg/vhook point; harness-side shims (innerShim) call it
+// directly for pause points that lie outside klevdb.
+func hookAt(point string) {
+	{
+		hm := curHook.Load()
 		if hm == nil {
 			return
 		}
@@ -159,7 +166,7 @@ func installHook(h *hookMode) {
 				<-c.release
 			}
 		}
-	})
+	}
 }
 
 // ---------------------------------------------------------------------------------------
